@@ -21,18 +21,18 @@ type UFun struct {
 }
 
 type Program struct {
-	fset      *token.FileSet
-	prog      *ssa.Program
-	pkgs      []*ssa.Package // repo packages
-	byName    map[string]*ssa.Package
-	funcs     map[string]*ssa.Function // key -> function (incl. closures)
-	keys      map[*ssa.Function]string
-	contracts map[string]*Contract
-	spec      *SpecFile
-	specFiles []string
-	heapSorts map[string][]string
-	heapTypes map[string]*types.Named
-	ufuns     map[string]*UFun
+	fset        *token.FileSet
+	prog        *ssa.Program
+	pkgs        []*ssa.Package // repo packages
+	byName      map[string]*ssa.Package
+	funcs       map[string]*ssa.Function // key -> function (incl. closures)
+	keys        map[*ssa.Function]string
+	contracts   map[string]*Contract
+	spec        *SpecFile
+	specFiles   []string
+	heapSorts   map[string][]string
+	heapTypes   map[string]*types.Named
+	ufuns       map[string]*UFun
 	forceUnroll map[string]bool
 
 	mu        sync.Mutex
@@ -42,6 +42,7 @@ type Program struct {
 	funcByID  map[T]VFunc
 	nextFn    int
 	poolTypes map[*ssa.Global]types.Type
+	poolNew   map[*ssa.Function]*ssa.Global
 	stores    map[*ssa.Global]int // number of Store instructions to each global outside init
 	repoRoot  string
 	initVals  map[*ssa.Global]func(ex *Exec, st *State) Val
@@ -74,7 +75,7 @@ func loadProgram(root string) (*Program, error) {
 		ufuns: map[string]*UFun{}, forceUnroll: map[string]bool{},
 		loopCache: map[*ssa.Function]map[*ssa.BasicBlock]*loopInfo{}, ordCache: map[*ssa.Function]map[ssa.Instruction]int{},
 		funcIDs: map[*ssa.Function]int{}, funcByID: map[T]VFunc{}, nextFn: 1000,
-		poolTypes: map[*ssa.Global]types.Type{}, stores: map[*ssa.Global]int{}, repoRoot: root}
+		poolTypes: map[*ssa.Global]types.Type{}, poolNew: map[*ssa.Function]*ssa.Global{}, stores: map[*ssa.Global]int{}, repoRoot: root}
 	_ = spkgs
 	for _, sp := range sprog.AllPackages() {
 		if !strings.HasPrefix(sp.Pkg.Path(), repoModule) {
@@ -126,6 +127,14 @@ func loadProgram(root string) (*Program, error) {
 	p.spec = sf
 	p.specFiles = files
 	p.contracts = sf.Contracts
+	for k, v := range sf.UFuns {
+		p.ufuns[k] = v
+	}
+	for k, sort := range sf.GhostFields {
+		// k = pkg.Type.field
+		i := strings.LastIndex(k, ".")
+		p.heapSorts[k[:i]+".$"+k[i+1:]] = []string{arrOf(sort)}
+	}
 	for k := range sf.Contracts {
 		if _, ok := p.funcs[k]; !ok {
 			return nil, fmt.Errorf("contract for unknown function %q (known: see `govc list`)", k)
@@ -258,6 +267,7 @@ func (p *Program) scanGlobals() {
 								newFn = v.Fn.(*ssa.Function)
 							}
 							if newFn != nil {
+								p.poolNew[newFn] = g
 								for _, nb := range newFn.Blocks {
 									for _, ni := range nb.Instrs {
 										if mi, ok := ni.(*ssa.MakeInterface); ok {
